@@ -39,7 +39,7 @@ def rule_gate(program, ctx):
         "C15.gate",
         "Authenticator.authenticate: every `return <token>` is reachable only after `self.check_auth_event(E, challenge)` with "
         "E = Event(**payload) and `challenge` the un-rebound parameter; check_auth_event contains no `return` (each check raises)",
-        floor=2,
+        floor=1,
     )
     fn = program.func("nostr_relay.auth:Authenticator.authenticate")
     cfg = cfg_of(fn)
@@ -102,7 +102,7 @@ def rule_guards(program, ctx):
         "check_auth_event: cutting the branch edges on which a required fact is known, the normal exit (resp. the `found_x = True` "
         "assignment) must become unreachable - facts: verify() truthy; kind == 22242; age < +bound; age > -bound (bounds <= 600 s, age = "
         "now - created_at); found_relay and found_challenge truthy; relay tag value in self.valid_urls; challenge tag value == challenge parameter",
-        floor=8,
+        floor=4,
     )
     fn = program.func("nostr_relay.auth:Authenticator.check_auth_event")
     cfg = cfg_of(fn)
@@ -293,7 +293,7 @@ def rule_challenge(program, ctx):
         "C15.challenge",
         "get_challenge returns secrets.token_hex/bytes/urlsafe(n >= 16), uses neither its argument nor shared state; start_client binds "
         "`challenge` once from get_challenge and passes that local to authenticate(…, challenge=challenge); it is sent in the AUTH frame",
-        floor=3,
+        floor=1,
     )
     fn = program.func("nostr_relay.auth:Authenticator.get_challenge")
     rets = [r for r in walk_no_nested(fn) if isinstance(r, ast.Return)]
@@ -337,7 +337,7 @@ def rule_token(program, ctx):
         "start_client: `auth_token` is bound exactly twice - `{}` before the loop and `await …authenticate(message[1], challenge=challenge)` "
         "in the AUTH branch; no handler or other branch rebinds it, so a failed AUTH leaves the identity unchanged; the AUTH branch is "
         "taken only when authentication is enabled",
-        floor=2,
+        floor=1,
     )
     sc = program.func("nostr_relay.web:start_client")
     st = stores_of(sc, "auth_token")
